@@ -84,6 +84,9 @@ def judge(chk: Check, res: dict) -> None:
             got_stmts = tuple(x for x in got if x[0] != "ns")
             if _as_set(got_stmts) == want_set:
                 chk.ok(rule, f"{inst} | {key}", {"statements": len(want_set), "frames": rec["frames"]})
+            elif _as_set(P.fold_langcase(got_stmts)) == _as_set(P.fold_langcase(tuple(want_set))):
+                # the specific known defect: a literal equal to the previous statement's up to the case of its language tag is elided
+                chk.fail(rule, f"{inst} | {key}", P.LANGCASE_CONSTRUCT, f"rdflib round trip changes the spelling of a language tag for {job['name']} ({cfg}) via {key}: {pipejob.first_diff(_as_set(got_stmts), want_set)}")
             else:
                 chk.fail(rule, f"{inst} | {key}", f"pyjelly.integrations.rdflib:roundtrip:{job['name'].split('=')[0] if '=' in job['name'] else 'sequence'}", f"rdflib round trip changes the data for {job['name']} ({cfg}) via {key}: {pipejob.first_diff(_as_set(got_stmts), want_set)}", {"rows": rec["frames"]})
 
